@@ -37,6 +37,7 @@ type FlowOpts struct {
 	MuteBroker         bool // the broker consumes and never answers (a handshake that only Close or Disconnect can end)
 	InvalidArg         int  // permille of publisher iterations that first issue a request with an invalid topic
 	Volatile           bool // the client is a VolatileSession (in-memory store of the package, no integrity layer)
+	StopFrom           int  // the environment action "stop the process" only from this step of the incarnation on
 	InWindow           int  // the broker's in-flight window: no new message while that many QoS 1/2 transactions are open (0: unlimited)
 	ReuseIDs           bool // the broker reuses packet identifiers as soon as their transaction is complete
 	LazyResend         bool // the broker postpones the retransmission of messages the application holds unacknowledged
@@ -130,6 +131,7 @@ type Flow struct {
 	PingReqWire       []int // steps at which a complete PINGREQ was on the wire
 	QStartStep        int
 	issuedStep        int // step at which the workload was completely issued
+	genStartStep      int // step at which the current incarnation started
 	failedAttemptStep int
 	failedAttemptTime time.Duration
 	StalledEarly      bool // the quiescence phase was declared because the world stalled with calls outstanding
@@ -994,7 +996,7 @@ func (f *Flow) env() []Action {
 	acts = append(acts, f.quitActions()...)
 	acts = append(acts, f.closerActions()...)
 	acts = append(acts, f.hostileActions()...)
-	if f.O.StopW > 0 && w.Gen < f.O.Generations && f.C != nil && w.StopParam < 0 {
+	if f.O.StopW > 0 && w.Gen < f.O.Generations && f.C != nil && w.StopParam < 0 && w.Steps-f.genStartStep >= f.O.StopFrom {
 		acts = append(acts, Action{Name: "stop", Weight: f.O.StopW, Run: func() {
 			w.Faults["stop_anywhere"]++
 			w.Ev("stop", 0, "process stops")
